@@ -299,12 +299,17 @@ def cases():
                                    "fa": forms, "fb": st.sampled_from(["lit", "diff", "str"])})
     power = st.fixed_dictionaries({"op": st.just("^"), "a": st.one_of(st.integers(-12, 12), ints()),
                                    "b": st.integers(0, 64), "fa": forms, "fb": st.sampled_from(["lit", "diff"])})
+    # bases whose powers stay small, raised to exponents that do not fit 32 bits / a machine word
+    power_big = st.fixed_dictionaries({"op": st.just("^"), "a": st.sampled_from([0, 1, -1]),
+                                       "b": st.one_of(st.sampled_from([2 ** 31, 2 ** 32, 2 ** 32 + 1, 2 ** 33, 2 ** 62, 2 ** 63 - 1, 2 ** 63, 2 ** 64, 2 ** 64 + 1, 3 * 2 ** 32]),
+                                                      wide_ints(30, 70, signed=False)),
+                                       "fa": forms, "fb": st.sampled_from(["lit", "diff", "str"])})
     un = st.fixed_dictionaries({"op": st.sampled_from(UN), "a": ints(), "fa": forms})
     small = st.one_of(st.integers(-(2 ** 40) + 1, 2 ** 40 - 1), st.integers(-2000, 2000),
                       st.builds(lambda p, q: p * q, st.sampled_from([2, 3, 65537, 999983, 1048573]),
                                 st.sampled_from([1, 2, 3, 65537, 999983, 1048573])))
     nt = st.fixed_dictionaries({"op": st.sampled_from(["is_prime", "factorize"]), "a": small, "fa": forms})
-    return st.one_of(arith, arith, cmpc, cmpeq, divc, shift, power, un, nt)
+    return st.one_of(arith, arith, cmpc, cmpeq, divc, shift, power, power_big, un, nt)
 
 
 def boundary_values():
